@@ -2,7 +2,6 @@ package corerad
 
 import (
 	"github.com/mdlayher/corerad/internal/config"
-	"github.com/mdlayher/corerad/internal/netstate"
 	"net/http"
 )
 
@@ -10,7 +9,7 @@ import (
 // HTTP server iff an address is configured; the link watcher last.
 func zzH20a() {
 	rec := &zzRec{}
-	s := &Server{cctx: zzNewContext(rec, &zzState{}), t: &terminator{}, w: netstate.NewWatcher()}
+	s := NewServer(zzNewContext(rec, &zzState{}))
 	n := zzParam("interfaces")
 	var cfg config.Config
 	kinds := make([]int, n)
